@@ -1,0 +1,31 @@
+//go:build verif
+// +build verif
+
+package ice
+
+import (
+	"io"
+
+	"github.com/RoaringBitmap/roaring"
+	segment "github.com/blugelabs/bluge_segment_api"
+)
+
+// Verification hooks (build tag "verif"). This file only adds exported
+// entry points to otherwise unexported functionality; it changes nothing
+// when the tag is off.
+
+// VerifNew exposes the chunk-mode-parameterised builder.
+func VerifNew(results []segment.Document, normCalc func(string, int) float32,
+	chunkMode uint32) (segment.Segment, uint64, error) {
+	return newWithChunkMode(results, normCalc, chunkMode)
+}
+
+// VerifMerge exposes the chunk-mode-parameterised merger.
+func VerifMerge(segments []segment.Segment, drops []*roaring.Bitmap, w io.Writer,
+	chunkMode uint32, closeCh chan struct{}) ([][]uint64, uint64, error) {
+	segmentBases := make([]*Segment, len(segments))
+	for i, seg := range segments {
+		segmentBases[i] = seg.(*Segment)
+	}
+	return mergeSegmentBasesWriter(segmentBases, drops, w, chunkMode, closeCh)
+}
